@@ -894,6 +894,7 @@ struct Gen {
   bool saved[kMaxStore];
   int savedZone[kMaxStore]; Kind savedKind[kMaxStore];
   int64_t lastE = 0; int lastY = 2020;
+  bool haveManual = false; int lastStd = 0, lastDst = 0;
   std::vector<std::pair<int, std::string> > recent;   // a few earlier queries of this run (client, query text)
   explicit Gen(uint64_t seed) : rng(seed) {
     for (int i = 0; i < kMaxProcs; i++) haveB[i] = haveX[i] = false;
@@ -953,9 +954,16 @@ struct Gen {
     unsigned r = (unsigned)rng.below(100);
     if (mix.restore && r < 22) {
       if (r < 14) {
-        static const int grid[] = {0, 60, -60, 330, -210, 345, 765, -720, 840, 960, -960, 1, -1, 7, 59, -481};
-        int sm = rng.chance(3, 4) ? grid[rng.below(16)] : (int)rng.range(-960, 960);
+        static const int grid[] = {0, 60, -60, 330, -210, 345, 765, -720, 840, 960, -960, 1, -1, 7, 59, -481, 1439, -1439};
+        int sm = rng.chance(3, 4) ? grid[rng.below(18)] : (int)rng.range(-960, 960);
         int dm = rng.chance(1, 2) ? 0 : (rng.chance(2, 3) ? 60 : (int)rng.range(-120, 120));
+        if (haveManual && rng.chance(1, 4)) {
+          // same sum as an earlier manual zone, different components (and the sum-zero case): equality must tell them apart
+          int k = rng.chance(1, 3) ? lastStd + lastDst : (int)rng.range(1, 90);
+          sm = lastStd + lastDst - k; dm = k;
+          if (rng.chance(1, 5)) { sm = (int)rng.range(1, 600); dm = -sm; }
+        }
+        haveManual = true; lastStd = sm; lastDst = dm;
         line(fmt("TZ %d manual %d %d", slot, sm, dm)); ckind[slot] = K_MANUAL;
       } else if (r < 17) { line(fmt("TZ %d utc", slot)); ckind[slot] = K_MANUAL; }
       else { line(fmt("TZ %d error", slot)); ckind[slot] = K_ERROR; }
